@@ -4,9 +4,9 @@ from hypothesis import strategies as st
 from .. import runner, sut
 
 ID = "C11"
-RULE = ("Generated operation sequences (up to 50 steps, up to 4 evaluators) over an alphabet of 8 valid texts (same experiment "
-        "name with different weights / groups, different names, different fields, a trivia variant of the same program) and 8 "
-        "invalid texts (syntactic: truncated, missing brace, two definitions, trailing junk; lexical: illegal character): "
+RULE = ("Generated operation sequences (up to 50 steps, up to 4 evaluators) over an alphabet of 13 valid texts (same experiment "
+        "name with different weights / groups, different names, different fields, a trivia variant of the same program, pairs that differ only in whitespace inside a string literal or after a // comment) and 11 "
+        "invalid texts (syntactic: truncated, missing brace, two definitions, trailing junk; lexical: illegal character, unterminated block comment): "
         "new(valid), new(invalid), recompile(valid), recompile(current text), recompile(invalid) - also immediately repeated - "
         "and call. Model: each evaluator = 'a fresh evaluator built from the last text it accepted'. After EVERY step every "
         "evaluator is compared with its model on a fixed probe set (so an effect on another evaluator is seen); invalid texts "
@@ -27,6 +27,13 @@ VALID = [
     'def other { salt: "t" splitters: uid if plan == "pro" { return "P1" weighted 1, "P2" weighted 3 } else { return "F" weighted 1 } }',
     'def third { splitters: uid, plan if uid in ("u1", "u2") { return 1 weighted 1 } else if plan != "pro" { return 2.5 weighted 1, "x" weighted 1 } }',
     'def exp { splitters: plan return "A" weighted 1, "B" weighted 1 }',
+    # pairs that differ ONLY in whitespace, yet mean different things (blanks inside a string literal / a salt)
+    'def ws { salt: "s 1" splitters: uid return "A" weighted 1, "B" weighted 1, "C" weighted 1, "D" weighted 1 }',
+    'def ws { salt: "s  1" splitters: uid return "A" weighted 1, "B" weighted 1, "C" weighted 1, "D" weighted 1 }',
+    'def ws { splitters: uid if plan == "pro" { return "A B" weighted 1 } else { return "A  B" weighted 1 } }',
+    'def ws { splitters: uid if plan == "pro" { return "A  B" weighted 1 } else { return "A B" weighted 1 } }',
+    # a // comment ended by a line break (valid); INVALID[8] is the same text with that line break turned into a blank
+    'def exp { splitters: uid // two arms\n return "A" weighted 1, "B" weighted 3 }',
 ]
 INVALID = [
     'def exp { splitters: uid return "A" weighted 1, "B" weighted',
@@ -37,6 +44,10 @@ INVALID = [
     'def exp { splitters: uid if uid = 1 { return "A" weighted 1 } }',
     '',
     'exp { splitters: uid return "A" weighted 1 }',
+    'def exp { splitters: uid // two arms  return "A" weighted 1, "B" weighted 3 }',
+    # an unterminated block comment that swallows the closing brace (invalid under every reading)
+    'def exp { splitters: uid return "A" weighted 1, "B" weighted 1 /* forgot to close }',
+    'def exp { splitters: uid /* open return "A" weighted 1 }',
 ]
 PROBES = [{"uid": "u%d" % i, "plan": p} for i in range(1, 9) for p in ("pro", "free")]
 
@@ -151,6 +162,20 @@ def judge(case):
                     break
         if not check_all(step, op):
             break
+    if not viol:
+        # the history must not leave anything behind: a brand-new evaluator of a valid text still works afterwards
+        # (this also attributes a process-wide state leak to the history that caused it, so the replay reproduces)
+        try:
+            ev = E(VALID[0])
+            if [sut.call(ev, p) for p in PROBES] != _fresh(0):
+                viol.append("after the history %r a new evaluator of a valid text behaves differently from before" % (case["ops"],))
+        except Exception as e:
+            viol.append("after the history %r constructing a new evaluator from a valid text raises %s: %s"
+                        % (case["ops"], type(e).__name__, e))
+    if viol:
+        # leave the process usable for the shrinker / the next case: a text containing */ closes a leaked comment state
+        for _ in range(2):
+            sut.compile_text("/* reset */ " + VALID[0])
     return {"viol": viol[:3], "nontrivial": nt, "tags": sorted(tags), "key": case["ops"], "sample": {"ops": case["ops"][:14]}}
 
 
